@@ -88,10 +88,10 @@ class HashTableGen:
             maxlen = 3
         else:
             confs = [(h, cap, lf) for h in ("const", "low", "id", "mul") for cap in (0, 1, 2, 3) for lf in ("0.25", "0.5", "0.75", "1")]
-            maxlen = 4
+            maxlen = 4   # length 4 only for the first 8 configurations (see below)
         alpha = ["a1", "a2", "a3", "a0", "r1", "r2", "r0", "g1", "g0", "ra"]
-        for (h, cap, lf) in confs:
-            for n in range(0, maxlen + 1):
+        for ci, (h, cap, lf) in enumerate(confs):
+            for n in range(0, (maxlen if ci % 8 == 0 or maxlen <= 3 else 3) + 1):
                 for seq in itertools.product(alpha, repeat=n):
                     if n and seq[0][0] in "rg" and seq[0] != "r1":
                         continue   # leading no-ops on the empty table: keep one representative
